@@ -24,7 +24,6 @@ resolution 0 on that axis (no pixels), so `1 ≤ rx` is exactly what positivity 
 namespace PersimVerif.C12
 open PersimVerif.Imager PersimVerif.Transformers
 
-deriving instance DecidableEq for Except
 set_option linter.unusedSectionVars false
 
 variable {K : Type} [Field K] [LinearOrder K] [IsStrictOrderedRing K] [FloorRing K]
